@@ -83,7 +83,10 @@ theorem transparent_partial (sn : Sniff) (cfg : Cfg) (path ae : Bytes) (h0 : Hdr
     exact this
 
 /-- **C15 on the statement's own domain** (programs of header operations, WriteHeader, Write,
-    io.Copy and Flush — no panic): full strength, no exclusion. -/
+    io.Copy and Flush — no panic): full strength, no exclusion.
+    Domain note: the model does not carry Content-Length (the statement excludes it from the comparison, `Base.resp` drops
+    it). A handler that declares a WRONG Content-Length is outside the domain: the bare writer then truncates or reports
+    ErrContentLength, which the model does not see. HEAD requests are correspondence only. -/
 theorem transparent (sn : Sniff) (cfg : Cfg) (path ae : Bytes) (h0 : Hdrs) (ops : List Op)
     (hv : ∀ o ∈ ops, OpValid o) (hnp : ops.any isPanicOp = false) :
     Transparent (active cfg path ae h0) (runWith sn cfg path ae h0 ops) (runPlain sn h0 ops) := by
